@@ -608,7 +608,7 @@ class _JsonGrammarHooks3:
         st = ex.st
         if ex.frame.module.name != JG_MODULE or not keys or not all(isinstance(k, str) for k in keys):
             return NotImplemented
-        if all(isinstance(v, str) for v in vals) or not all(isinstance(v, (str, Ref)) for v in vals):
+        if K_SCHEMA not in keys or not all(isinstance(v, (str, Ref)) for v in vals):
             return NotImplemented
         # a schema literal {"keyword": "text", ..., "properties": <dict of property schemas>}
         o = DictObj.empty(st, TStr, TVal)
@@ -618,6 +618,12 @@ class _JsonGrammarHooks3:
                 term = val_of_str(str_lit(v))
             else:
                 d = st.heap[v.id]
+                if key == K_REQUIRED and isinstance(d, (ListObj, SetObj, DictObj)):
+                    term = st.fresh_const("required_value", ValS)
+                    mem = ex.models._iter_member(ex, v, TStr)
+                    st.assume(z3.ForAll([k], names_of(term)[k] == mem[k]))
+                    o.set(st, str_lit(key), term)
+                    continue
                 if not isinstance(d, DictObj) or key != K_PROPERTIES or d.is_empty_literal or d.v.sort() != ValS:
                     return NotImplemented
                 term = st.fresh_const("properties_value", ValS)
